@@ -70,6 +70,18 @@ pub fn check_fault_point(sc: &Scenario, s: usize, n: usize, dir: &Path, out: &mu
 			return Err(Failure::new(format!("after-io-error:{}", f.sig), format!("after the failure of op {s} at file operation {n}: {}", f.detail)))
 		}
 		out.count("reads_after_failure", 1);
+		// the failure is a background error from now on: commits are refused
+		if !matches!(op, Op::Reopen) {
+			if let Some(db) = it.db.as_ref() {
+				match db.commit_changes(Vec::<(u8, parity_db::Operation<Vec<u8>, Vec<u8>>)>::new()) {
+					Err(_) => out.count("commits_refused_after_failure", 1),
+					Ok(()) => {
+						disarm();
+						fail!("commit-accepted-after-io-error", "after the failure of op {s} ({}) at file operation {n} a commit was accepted", op_name(op))
+					},
+				}
+			}
+		}
 	}
 	// drop with the fault still present
 	set_faults(0);
